@@ -268,4 +268,20 @@ theorem counters_sum (L : Locks)
 example : (run allL (init exInit exProgs) exSched).cnt =
     { passed := 1, added := 2, updated := 2, failed := 2 } := by decide
 
+/-- **The current source**: the lock kinds regenerated from snaps/snapshot.go on every run are
+read lock on `getPrevSnapshot`, write lock on `addNewSnapshot` and on `updateSnapshot`.  If a lock
+is removed from the source this no longer checks (and the schedule explorer searches for the
+interleaving that breaks serialisability). -/
+theorem source_is_all_locked : allLocked = true := by decide
+
+/-- serialisability (outcomes and final file) for the lock discipline of the current source,
+every number of threads, every schedule -/
+theorem source_serialisable
+    (f₀ : File κ ν) (progs : List (List (Call κ ν))) (hdisj : Disj progs) (sch : List Nat) :
+    (∀ (i : Nat) (t : ATState κ ν), (run pinnedLocks (init f₀ progs) sch).ts[i]? = some t →
+      t.todo = [] → ∃ p, progs[i]? = some p ∧ t.outs = serialOuts (lookup f₀) p) ∧
+    (AllDone (run pinnedLocks (init f₀ progs) sch) →
+      FinalOK f₀ progs (run pinnedLocks (init f₀ progs) sch).file) :=
+  serialisable_of_allLocked source_is_all_locked f₀ progs hdisj sch
+
 end GoSnaps.Conc.C06
